@@ -237,7 +237,14 @@ def run_history(case):
     try:
         motifs = [(m[0], list(m[1]), [tuple(e) for e in m[2]]) for m in case["motifs"]]
         mp = None
-        for phi in case["phis"]:
+        for i, phi in enumerate(case["phis"]):
+            fr = (case.get("abort_before") or {}).get(str(i))
+            if fr is not None and mp is not None:
+                # crash point: the query at this phi is first abandoned part-way on the shared object (the caller catches the
+                # exception and asks again); the complete query must still equal a fresh object's answer
+                from ..crash import abort_frac
+                out = abort_frac(lambda: plain(motifs, phi, case["iterations"]), lambda: mp.theoretical(phi), fr)
+                tr["aborted"] = tr.get("aborted", 0) + (out == "aborted")
             mp, v = plain(motifs, phi, case["iterations"], mp)
             tr["shared"].append(float(v).hex())
             _o, w = plain(motifs, phi, case["iterations"])
@@ -282,6 +289,8 @@ def run(chk):
     chk.mc("MC_MessagePassing", "MC_MessagePassing.cfg", required=["Update"])
     chk.mc("MC_MessagePassing", "MC_MessagePassing_live.cfg", required=["Update"])
     chk.mc("MC_MessagePassing", "MC_MessagePassing_cyclic.cfg", expect_violation="C17_AnyFixedPointIsZero")
+    from .. import crash
+    crash.mc(chk)
     rng = _r.Random(chk.seed)
     traces = []
     covers = []
@@ -301,6 +310,10 @@ def run(chk):
         traces.append(run_once({"motifs": motifs, "phi": 1, "iterations": 30, "isolated": iso, "edge_order": eo}))
         traces.append(run_history({"edge_order": eo, "isolated": iso, "motifs": motifs, "phis": rng.sample([0, 0.1, 0.25, 0.5, 0.5, 0.75, 1, 1, 0.3, 0.9, 0.15], 6),
                                    "iterations": rng.choice([1, 5, 25])}))
+        for rep in range(3 if thorough else 1):
+            phis = rng.sample([0, 0.1, 0.25, 0.5, 0.75, 1, 0.3, 0.9, 0.15], 5)
+            traces.append(run_history({"edge_order": eo, "isolated": iso, "motifs": motifs, "phis": phis, "iterations": rng.choice([1, 2, 5]),
+                                       "abort_before": {str(i): rng.choice([0.02, 0.2, 0.5, 0.8, 0.97]) for i in rng.sample(range(1, 5), 3)}}))
         for it in ((1, 5, 25) if (thorough or ci % 4 == 0) else (rng.choice([1, 5]),)):
             traces.append(run_curve({"edge_order": eo, "isolated": iso, "motifs": motifs, "points": 40 if thorough else (20 if ci % 4 == 0 else 10), "iterations": it}))
         if thorough or ci % 3 == 0:
@@ -314,6 +327,7 @@ def run(chk):
     chk.add_sample(next((t for t in traces if t["kind"] == "curve"), traces[0]))
     chk.judge("MessagePassingTrace", "MessagePassingTrace.cfg", traces, label="C17", key_fn=_key, heap="3g", parallel=8)
     chk.nontrivial = len({str(t["case"]) for t in traces})
+    chk.extra["queries_judged_after_an_abandoned_query_on_the_same_object"] = sum(t.get("aborted", 0) for t in traces if t["kind"] == "history")
     chk.extra["updates_validated"] = sum(len(t["updates"]) for t in runs)
     chk.extra["updates_recomputed_exactly_at_phi_one_half"] = sum(1 for t in runs for u in t["updates"] if u.get("spot"))
     chk.extra["updates_recomputed_exactly_at_phi_zero_or_one"] = sum(len(t["updates"]) for t in runs if t["phi_kind"] != "interior")
